@@ -586,9 +586,19 @@ func runC17(c *Ctx) {
 		}
 		// base flags
 		flagsOK := false
+		// the constant reaches the flags through a store when their address
+		// is handed to the per-OS helper, and as a plain operand (of the OR
+		// with the owner bit, of the phi after it, or of the return) when
+		// they stay in a register
 		eachInstr(fs, func(in ssa.Instruction) {
-			if st, ok := in.(*ssa.Store); ok {
-				if k, ok := constInt(st.Val); ok && k == 0xD {
+			for _, op := range in.Operands(nil) {
+				if op == nil || *op == nil {
+					continue
+				}
+				if k, ok := constInt(*op); ok && k == 0xD {
+					if b, isBin := in.(*ssa.BinOp); isBin && b.Op != token.OR {
+						continue
+					}
 					flagsOK = true
 				}
 			}
@@ -772,6 +782,9 @@ func runC17(c *Ctx) {
 							case leafParam:
 								d = "path"
 							}
+						}
+						if d == "?" && isBasicKind(types.String)(a.Type()) {
+							d = "path" // no attribute is a string: the name of the file, wherever it is kept
 						}
 						if d == "path" || d == "?" {
 							// the path/handle argument is not part of the attribute pairing
